@@ -24,6 +24,7 @@ BuildStep(r) ==
                [] a.op = "append_ref" -> BAppend(pre, a.e, a.j, a.r)
                [] a.op = "value" -> NewAttr(pre, a.e, [n |-> a.n, t |-> a.t, arr |-> a.arr, v |-> a.v])
                [] a.op = "place" -> BPlace(pre, a.place, a.c, a.nn)
+               [] a.op = "nameplace" -> BNamePlace(pre, a.place, a.nn)
     IN IF r.post = e THEN Good ELSE Bad("build.state", e)
 
 \* --- the written bytes, binary
